@@ -740,6 +740,45 @@ pub fn power_levels_cases() -> Vec<AuthCase> {
     out
 }
 
+/// Who counts as the room creator (level 100 while no power-levels event exists): `content.creator`
+/// of the create event in room versions 1-10, the create event's sender in v11 - the two differ in
+/// these cells.
+pub fn creator_identity_cases() -> Vec<AuthCase> {
+    let mut out = vec![];
+    const DAVE: &str = "@dave:hs1";
+    for v in 1..=11u8 {
+        for with_pl in [false, true] {
+            for actor in [CREATOR, DAVE, ALICE] {
+                for kind in ["topic", "first_power_levels", "message", "invite", "kick"] {
+                    let mut s = Sc::bare(v);
+                    let mut content = json!({"room_version": v.to_string()});
+                    if v <= 10 {
+                        content["creator"] = json!(CREATOR);
+                    }
+                    // sent by dave, naming @creator as the creator
+                    s.set("m.room.create", "", DAVE, content);
+                    s.join_rule("public");
+                    for u in [CREATOR, DAVE, ALICE, BOB] {
+                        s.member(u, "join");
+                    }
+                    if with_pl {
+                        s.pl(json!({"users": {ALICE: 100}}));
+                    }
+                    let e = match kind {
+                        "topic" => s.event("m.room.topic", Some(""), actor, json!({"topic": "t"})),
+                        "first_power_levels" => s.event("m.room.power_levels", Some(""), actor, json!({"users": {actor: 100}})),
+                        "message" => s.event("m.room.message", None, actor, json!({"body": "x"})),
+                        "invite" => s.event("m.room.member", Some(CAROL), actor, json!({"membership": "invite"})),
+                        _ => s.event("m.room.member", Some(BOB), actor, json!({"membership": "leave"})),
+                    };
+                    out.push(s.case("creator_identity", e));
+                }
+            }
+        }
+    }
+    out
+}
+
 pub fn all_cases() -> Vec<AuthCase> {
     let mut all = vec![];
     all.extend(create_cases());
@@ -753,6 +792,7 @@ pub fn all_cases() -> Vec<AuthCase> {
     all.extend(generic_cases());
     all.extend(redaction_cases());
     all.extend(power_levels_cases());
+    all.extend(creator_identity_cases());
     let derived = tpi_content_on_other_memberships(&all);
     all.extend(derived);
     all
